@@ -273,9 +273,11 @@ func (k Keeper) TallyValidityProofs(ctx sdk.Context, duration time.Duration, rep
 				// distribute publish collateral to challengers as a reward.
 				publishCollateral := data.PublishDataCollateral
 				reward := sdk.Coins{}
-				for _, coin := range publishCollateral {
-					dividedAmount := math.LegacyNewDecFromInt(coin.Amount).QuoInt64(int64(len(invalidities))).TruncateInt()
-					reward = append(reward, sdk.NewCoin(coin.Denom, dividedAmount))
+				if len(invalidities) > 0 { // no challenger, nothing to divide (and no division by zero)
+					for _, coin := range publishCollateral {
+						dividedAmount := math.LegacyNewDecFromInt(coin.Amount).QuoInt64(int64(len(invalidities))).TruncateInt()
+						reward = append(reward, sdk.NewCoin(coin.Denom, dividedAmount))
+					}
 				}
 
 				// rewards collateral + reward to challengers
